@@ -3,6 +3,7 @@ mod cli;
 mod decode;
 mod gen;
 mod graph;
+mod hostile;
 mod machine;
 mod print;
 mod props;
@@ -147,6 +148,10 @@ fn main() {
                 steps += s;
             }
             println!("machine {:?} steps {}", t0.elapsed(), steps);
+        }
+        "worker" => {
+            let path = args.get(2).cloned().unwrap_or_default();
+            std::process::exit(props::c06::worker(&path));
         }
         "check" => {
             // rvmon check <PROP> --tier quick|thorough --seed N --root DIR --jobs N --rva-checked P --rva-release P
